@@ -275,6 +275,45 @@ def srcAcceptable (userAccept : UA) : Src → Bool
   | .ctx => true                -- errors.Is(err, context.Canceled)
   | _ => false
 
+/-- the class an `errors.Is` / `errors.As` probe finds an error source under -/
+def srcCls : Src → Option Cls
+  | .body c => some c
+  | .commit c => some c
+  | .rollback c => some c
+  | .ctx => some .canceled
+  | _ => none
+
+/-- `errors.Is(err, <sentinel of class c>)` / `errors.As(err, <type of class c>)` -/
+def hasCls (e : Option Err) (c : Cls) : Bool :=
+  match e with
+  | none => false
+  | some e => e.is.any (fun s => srcCls s == some c)
+
+/-- a function value of type `func(error) bool`; `none` = nil -/
+abbrev AccFn := Option (Option Err → Bool)
+
+/-- `db.accept` of a connection built with the WithAcceptable functions `ua` (in option order): nil with none
+installed, else `f1(err) || f2(err)` over the installed ones — the first function accepts exactly the class
+`userOk`, the second exactly `userOk2`. -/
+def uaFn (ua : UA) : AccFn :=
+  if !ua.a1 && !ua.a2 then none
+  else some fun e => (ua.a1 && hasCls e .userOk) || (ua.a2 && hasCls e .userOk2)
+
+/-- `WithAcceptable(new)` applied to a connection whose `accept` is `cur`: install `new` when nothing is
+installed yet, else keep the previous function and consult both (`pre(err) || new(err)`). -/
+def withAcceptable (cur : AccFn) (new : Option Err → Bool) : AccFn :=
+  match cur with
+  | none => some new
+  | some pre => some fun e => pre e || new e
+
+/-- the functions the harness installs: the first accepts exactly class `userOk`, the second exactly `userOk2` -/
+def userFn1 : Option Err → Bool := fun e => hasCls e .userOk
+def userFn2 : Option Err → Bool := fun e => hasCls e .userOk2
+
+/-- the WithAcceptable options of a configuration, in option order -/
+def UA.installed (ua : UA) : List (Option Err → Bool) :=
+  (if ua.a1 then [userFn1] else []) ++ (if ua.a2 then [userFn2] else [])
+
 /-- `commonSqlConn.acceptable`: nil, or something acceptable reachable in the chain -/
 def acceptable (userAccept : UA) : Option Err → Bool
   | none => true
